@@ -227,7 +227,7 @@ def explore_analysis(r, h1, rnd, n):
             steps.append({"op": "completion_context", "path": "/vt/test_a%d.py" % i, "line": ln, "col": col})
         steps.append({"op": "undeclared", "path": "/vt/test_a%d.py" % i})
         cases.append({"id": i, "ops": steps, "text": txt})
-    obs, rc = core.run_h1(h1, [{"id": c["id"], "ops": c["ops"]} for c in cases], "C11_analysis")
+    obs, rc = core.run_h1(h1, [{"id": c["id"], "ops": c["ops"]} for c in cases], "C11_analysis", allow_hang=True)
     bad = []
     indexed = 0
     for c in cases:
